@@ -12,10 +12,41 @@ import (
 )
 
 type (
-	Locker    = sync.Locker
-	WaitGroup = sync.WaitGroup
-	Cond      = sync.Cond
+	Locker = sync.Locker
+	Cond   = sync.Cond
 )
+
+// WaitGroup: while an exploration is active the counter is modelled (Add/Done are scheduling points, Wait is a
+// blocking point that becomes enabled when the counter reaches zero); otherwise the real WaitGroup is used. A wait
+// group is used either inside or outside an exploration, not across its start.
+type WaitGroup struct {
+	real sync.WaitGroup
+	n    int64 // modelled counter (only touched by the one running thread)
+	tok  byte
+}
+
+func (w *WaitGroup) Add(d int) {
+	if !vsched.Active() {
+		w.real.Add(d)
+		return
+	}
+	w.n += int64(d)
+	if d < 0 {
+		vsched.RaceRelease(unsafe.Pointer(&w.tok))
+	}
+	vsched.Point(vsched.KWGAdd, uintptr(unsafe.Pointer(w)), &w.n)
+}
+
+func (w *WaitGroup) Done() { w.Add(-1) }
+
+func (w *WaitGroup) Wait() {
+	if !vsched.Active() {
+		w.real.Wait()
+		return
+	}
+	vsched.Point(vsched.KWGWait, uintptr(unsafe.Pointer(w)), &w.n)
+	vsched.RaceAcquire(unsafe.Pointer(&w.tok))
+}
 
 // Map is sync.Map with a scheduling point (an always-enabled yield) before every operation, so that interleavings
 // between two users of a lock-free map are explored; the real operations keep the race detector's view intact.
